@@ -40,6 +40,10 @@ type FxType struct {
 	Type   string   `json:"type"`
 	Fields []string `json:"fields"`
 	Rows   []FxRow  `json:"rows"`
+	// Roles: model field (role) -> current name of the struct field that plays it (roles.go); FieldTypes: per field
+	Roles      map[string]string `json:"roles"`
+	FieldTypes []string          `json:"field_types"`
+	Counter    string            `json:"counter,omitempty"` // the field the C02 recogniser identified as the depth counter
 }
 
 type fset uint64
@@ -60,6 +64,17 @@ type fxAnalysis struct {
 	fns    []*ssa.Function
 	sum    map[*ssa.Function]*fxSummary
 	bySig  map[string][]*ssa.Function // func(*T)-shaped functions, for calls through function values
+	// depth counter of T as identified by the C02 recogniser (depthguard.go), -1 if none: its "balanced" class is
+	// decided by that recogniser's data flow (net step 0 on every return path), helpers inlined into their callers
+	ctr int
+	di  *depthInfo
+}
+
+// ctrNeutral: stores to the counter inside fn are accounted for by the recogniser: fn (or the function fn is a
+// closure of) is balanced, or a helper that is judged as part of each of its callers
+func (a *fxAnalysis) ctrNeutral(fn *ssa.Function) bool {
+	r := rootFn(fn)
+	return a.di != nil && (a.di.Balanced[r] || a.di.Helpers[r])
 }
 
 func (a *fxAnalysis) isTargetPtr(t types.Type) bool {
@@ -265,6 +280,9 @@ func (a *fxAnalysis) nilSide(b *ssa.BasicBlock) int {
 // analyse one function with the current summaries of its callees
 func (a *fxAnalysis) analyse(fn *ssa.Function) *fxSummary {
 	s := &fxSummary{}
+	if a.ctr >= 0 && fn.Parent() == nil && a.di.Touches[fn] && !a.di.Balanced[fn] {
+		s.unbalanced |= fset(1) << uint(a.ctr) // steps the counter (possibly through helpers) without taking every step back
+	}
 	// deferred callees of fn, with the block that registers them
 	type def struct {
 		b  *ssa.BasicBlock
@@ -433,7 +451,14 @@ func (a *fxAnalysis) analyse(fn *ssa.Function) *fxSummary {
 							s.unpairedNonzero |= bit
 						}
 					}
-					if !(a.isStepStore(x, f, token.ADD) && deferredDecIn(b, f)) && !(fn.Parent() != nil && a.isStepStore(x, f, token.SUB)) {
+					if f == a.ctr {
+						if !a.ctrNeutral(fn) {
+							s.unbalanced |= bit
+						}
+					} else if !(a.isStepStore(x, f, token.ADD) && deferredDecIn(b, f)) && !(a.isStepStore(x, f, token.SUB) && a.isStep(fn, f, token.SUB)) {
+						// a function (closure or named method) whose only store is the -1 step is not judged on its own:
+						// deferred next to the +1 step it is the other half of the pair, called otherwise it is
+						// charged to the caller (transitive merge below)
 						s.unbalanced |= bit
 					}
 					da |= bit
@@ -512,6 +537,15 @@ func (a *fxAnalysis) analyse(fn *ssa.Function) *fxSummary {
 					s.mayWrite |= gs.mayWrite
 					s.nonzeroStore |= gs.nonzeroStore
 					s.unbalanced |= gs.unbalanced
+					// a step-only callee that is not the deferred half of a pair in this block
+					for f := 0; f < a.nf; f++ {
+						if f == a.ctr || !a.isStep(g, f, token.SUB) {
+							continue
+						}
+						if _, isDefer := ins.(*ssa.Defer); !isDefer || !a.pairedInc(b, f) {
+							s.unbalanced |= fset(1) << uint(f)
+						}
+					}
 					if _, isDefer := ins.(*ssa.Defer); isDefer {
 						// the deferred half of a pair is accounted for with the store it is paired with
 						s.unpairedNonzero |= gs.unpairedNonzero
@@ -549,7 +583,19 @@ func (a *fxAnalysis) isStepStore(st *ssa.Store, f int, op token.Token) bool {
 	return ok && g == f
 }
 
-// isStep: g is a closure whose only store to a field of T is  f = f op 1
+// pairedInc: block b contains the store f = f + 1
+func (a *fxAnalysis) pairedInc(b *ssa.BasicBlock, f int) bool {
+	for _, ins := range b.Instrs {
+		if st, ok := ins.(*ssa.Store); ok {
+			if g, ok := a.fieldOf(st.Addr); ok && g == f && a.isStepStore(st, f, token.ADD) {
+				return true
+			}
+		}
+	}
+	return false
+}
+
+// isStep: g is a function (closure or named method) whose only store to a field of T is  f = f op 1
 func (a *fxAnalysis) isStep(g *ssa.Function, f int, op token.Token) bool {
 	found := false
 	for _, b := range g.Blocks {
@@ -590,7 +636,7 @@ func (a *fxAnalysis) solve() {
 	}
 }
 
-func fieldFx(prog *ssa.Program, p *packages.Package, typeName string) *FxType {
+func fieldFx(prog *ssa.Program, p *packages.Package, typeName string, di *depthInfo) *FxType {
 	obj, ok := p.Types.Scope().Lookup(typeName).(*types.TypeName)
 	if !ok {
 		return nil
@@ -605,12 +651,22 @@ func fieldFx(prog *ssa.Program, p *packages.Package, typeName string) *FxType {
 	}
 	a := &fxAnalysis{prog: prog, pkg: prog.Package(p.Types), target: named, nf: st.NumFields(), sum: map[*ssa.Function]*fxSummary{}, bySig: map[string][]*ssa.Function{}}
 	a.all = fset(1)<<uint(a.nf) - 1
+	a.ctr = -1
+	if di != nil && di.Owner != nil && di.Owner.Obj() == named.Obj() {
+		a.ctr, a.di = di.Index, di
+	}
 	a.allFuncs()
 	a.solve()
 	res := &FxType{Pkg: p.PkgPath, Type: typeName}
+	qual := func(q *types.Package) string { return q.Name() }
 	for i := 0; i < st.NumFields(); i++ {
 		res.Fields = append(res.Fields, st.Field(i).Name())
+		res.FieldTypes = append(res.FieldTypes, types.TypeString(st.Field(i).Type(), qual))
 	}
+	if a.ctr >= 0 {
+		res.Counter = st.Field(a.ctr).Name()
+	}
+	res.Roles = fieldRoles(a, st, typeName)
 	for _, fn := range a.fns {
 		if fn.Parent() != nil || fn.Object() == nil || !fn.Object().Exported() {
 			continue
